@@ -354,6 +354,63 @@ pub fn run(item: &Value) -> Value {
                 None => json!({"ok": true, "next": Value::Null}),
             }
         }
+        "split_sequences" => {
+            // fields: [[tag, value, stamp]...] -> FieldMap; config from marker / c_fields / has_c
+            use swift_mt_message::parser::sequence_parser::{FieldMap, SequenceConfig, split_into_sequences};
+            let mut fm: FieldMap = FieldMap::new();
+            for f in item["fields"].as_array().cloned().unwrap_or_default() {
+                fm.entry(f[0].as_str().unwrap_or("").to_string())
+                    .or_default()
+                    .push((f[1].as_str().unwrap_or("").to_string(), f[2].as_u64().unwrap_or(0) as usize));
+            }
+            let cfg = SequenceConfig {
+                sequence_b_marker: item["marker"].as_str().unwrap_or("21").to_string(),
+                sequence_c_fields: item["c_fields"].as_array().map(|a| a.iter().filter_map(|v| v.as_str().map(|s| s.to_string())).collect()).unwrap_or_default(),
+                has_sequence_c: item["has_c"].as_bool().unwrap_or(false),
+            };
+            let dump = |m: &FieldMap| {
+                let mut v: Vec<Value> = Vec::new();
+                for (k, vals) in m {
+                    for (s, p) in vals {
+                        v.push(json!([k, s, p]));
+                    }
+                }
+                v.sort_by_key(|x| x[2].as_u64().unwrap_or(0));
+                v
+            };
+            match split_into_sequences(&fm, &cfg) {
+                Ok(ps) => json!({"ok": true, "a": dump(&ps.sequence_a), "b": dump(&ps.sequence_b), "c": dump(&ps.sequence_c)}),
+                Err(e) => json!({"ok": false, "display": e.to_string()}),
+            }
+        }
+        "repetitive_sequence" => {
+            use swift_mt_message::parser::sequence_parser::{FieldMap, parse_repetitive_sequence};
+            let mut fm: FieldMap = FieldMap::new();
+            for f in item["fields"].as_array().cloned().unwrap_or_default() {
+                fm.entry(f[0].as_str().unwrap_or("").to_string())
+                    .or_default()
+                    .push((f[1].as_str().unwrap_or("").to_string(), f[2].as_u64().unwrap_or(0) as usize));
+            }
+            match parse_repetitive_sequence::<swift_mt_message::messages::MT101>(&fm, item["marker"].as_str().unwrap_or("21")) {
+                Ok(items) => {
+                    let out: Vec<Value> = items
+                        .iter()
+                        .map(|m| {
+                            let mut v: Vec<Value> = Vec::new();
+                            for (k, vals) in m {
+                                for (s, p) in vals {
+                                    v.push(json!([k, s, p]));
+                                }
+                            }
+                            v.sort_by_key(|x| x[2].as_u64().unwrap_or(0));
+                            json!(v)
+                        })
+                        .collect();
+                    json!({"ok": true, "items": out})
+                }
+                Err(e) => json!({"ok": false, "display": e.to_string()}),
+            }
+        }
         "block4_fields" => {
             let text = item["text"].as_str().unwrap_or("");
             match swift_mt_message::parser::parse_block4_fields(text) {
